@@ -113,6 +113,11 @@ OBJECT_IDENTIFIER_get_single_arc(const uint8_t *arcbuf, size_t arcbuf_len,
         asn_oid_arc_t accum;
         /* Gather all bits into the accumulator */
         for(accum = 0; b < arcend; b++) {
+            if(accum > (ASN_OID_ARC_MAX >> 7)) {
+                /* The next 7 bits would not fit (the test below can not see it) */
+                errno = ERANGE; /* Overflow */
+                return -1;
+            }
             accum = (accum << 7) | (*b & ~0x80);
             if((*b & 0x80) == 0) {
                 if(accum <= ASN_OID_ARC_MAX) {
